@@ -22,6 +22,7 @@
 -/
 import EvalFilter.Model.Api
 import EvalFilter.Props.Tables
+import EvalFilter.Proofs.OptWindows
 
 namespace EvalFilter.Props.C03
 open EvalFilter EvalFilter.VM
@@ -109,6 +110,75 @@ theorem C03_false_then_jumpIfFalse (x n1 n2 : Nat) (stack : List Value) (st : Ru
   constructor
   · simp only [step, h1, isBinary]; simp
   · simp only [step, h2, isBinary]; simp [Value.truthy, hn]
+
+/-! ### the same at the level of programs -/
+
+open EvalFilter.Exec in
+/-- wherever `OpPush b; OpPush a; OpAdd` stands in a program, the window and its replacement
+    (`OpPush (a+b)` + four NOPs) lead from the same configuration to the same configuration -/
+theorem C03_window_add (obj : HostVal) (raw opt : Bytes) (ip a b : Nat)
+    (hraw : CodeAt raw ip [⟨.push, b⟩, ⟨.push, a⟩, ⟨.add, 0⟩])
+    (hopt : CodeAt opt ip [⟨.push, a + b⟩, ⟨.nop, 0⟩, ⟨.nop, 0⟩, ⟨.nop, 0⟩, ⟨.nop, 0⟩])
+    (hM : NeverDone M) (ha : a < 65536) (hb : b < 65536) (hab : a + b < 65536)
+    (stack : List Value) (env : Env) (out : Str) (polls depth fuel : Nat) :
+    loop M obj raw (fuel + 3) ip stack ⟨env, out, polls, depth⟩ =
+      loop M obj raw fuel (ip + 7) (pushed (a + b) :: stack) ⟨env, out, polls + 3, depth⟩ ∧
+    loop M obj opt (fuel + 5) ip stack ⟨env, out, polls, depth⟩ =
+      loop M obj opt fuel (ip + 7) (pushed (a + b) :: stack) ⟨env, out, polls + 5, depth⟩ :=
+  window_arith .add rfl rfl (C03_fold_add M a b) hraw hopt hM ha hb hab stack env out polls depth fuel
+
+open EvalFilter.Exec in
+/-- … `OpPush b; OpPush a; OpMul` -/
+theorem C03_window_mul (obj : HostVal) (raw opt : Bytes) (ip a b : Nat)
+    (hraw : CodeAt raw ip [⟨.push, b⟩, ⟨.push, a⟩, ⟨.mul, 0⟩])
+    (hopt : CodeAt opt ip [⟨.push, a * b⟩, ⟨.nop, 0⟩, ⟨.nop, 0⟩, ⟨.nop, 0⟩, ⟨.nop, 0⟩])
+    (hM : NeverDone M) (ha : a < 65536) (hb : b < 65536) (hab : a * b < 65536)
+    (stack : List Value) (env : Env) (out : Str) (polls depth fuel : Nat) :
+    loop M obj raw (fuel + 3) ip stack ⟨env, out, polls, depth⟩ =
+      loop M obj raw fuel (ip + 7) (pushed (a * b) :: stack) ⟨env, out, polls + 3, depth⟩ ∧
+    loop M obj opt (fuel + 5) ip stack ⟨env, out, polls, depth⟩ =
+      loop M obj opt fuel (ip + 7) (pushed (a * b) :: stack) ⟨env, out, polls + 5, depth⟩ :=
+  window_arith .mul rfl rfl (C03_fold_mul M a b) hraw hopt hM ha hb hab stack env out polls depth fuel
+
+open EvalFilter.Exec in
+/-- … `OpPush b; OpPush a; OpSub` (folded only when `a ≤ b`) -/
+theorem C03_window_sub (obj : HostVal) (raw opt : Bytes) (ip a b : Nat) (hle : a ≤ b)
+    (hraw : CodeAt raw ip [⟨.push, b⟩, ⟨.push, a⟩, ⟨.sub, 0⟩])
+    (hopt : CodeAt opt ip [⟨.push, b - a⟩, ⟨.nop, 0⟩, ⟨.nop, 0⟩, ⟨.nop, 0⟩, ⟨.nop, 0⟩])
+    (hM : NeverDone M) (ha : a < 65536) (hb : b < 65536)
+    (stack : List Value) (env : Env) (out : Str) (polls depth fuel : Nat) :
+    loop M obj raw (fuel + 3) ip stack ⟨env, out, polls, depth⟩ =
+      loop M obj raw fuel (ip + 7) (pushed (b - a) :: stack) ⟨env, out, polls + 3, depth⟩ ∧
+    loop M obj opt (fuel + 5) ip stack ⟨env, out, polls, depth⟩ =
+      loop M obj opt fuel (ip + 7) (pushed (b - a) :: stack) ⟨env, out, polls + 5, depth⟩ :=
+  window_arith .sub rfl rfl (C03_fold_sub M a b hle) hraw hopt hM ha hb (by omega) stack env out polls depth fuel
+
+open EvalFilter.Exec in
+/-- … `OpPush b; OpPush a; OpDiv` (folded only when `a ≠ 0`) -/
+theorem C03_window_div (obj : HostVal) (raw opt : Bytes) (ip a b : Nat) (hne : a ≠ 0)
+    (hraw : CodeAt raw ip [⟨.push, b⟩, ⟨.push, a⟩, ⟨.div, 0⟩])
+    (hopt : CodeAt opt ip [⟨.push, b / a⟩, ⟨.nop, 0⟩, ⟨.nop, 0⟩, ⟨.nop, 0⟩, ⟨.nop, 0⟩])
+    (hM : NeverDone M) (ha : a < 65536) (hb : b < 65536)
+    (stack : List Value) (env : Env) (out : Str) (polls depth fuel : Nat) :
+    loop M obj raw (fuel + 3) ip stack ⟨env, out, polls, depth⟩ =
+      loop M obj raw fuel (ip + 7) (pushed (b / a) :: stack) ⟨env, out, polls + 3, depth⟩ ∧
+    loop M obj opt (fuel + 5) ip stack ⟨env, out, polls, depth⟩ =
+      loop M obj opt fuel (ip + 7) (pushed (b / a) :: stack) ⟨env, out, polls + 5, depth⟩ :=
+  window_arith .div rfl rfl (C03_fold_div M a b hne ha hb) hraw hopt hM ha hb
+    (by have := Nat.div_le_self b a; omega) stack env out polls depth fuel
+
+open EvalFilter.Exec in
+/-- a constant-true condition and the four NOPs that replace it -/
+theorem C03_window_true_jif (obj : HostVal) (raw opt : Bytes) (ip x : Nat)
+    (hraw : CodeAt raw ip [⟨.true, 0⟩, ⟨.jumpIfFalse, x⟩])
+    (hopt : CodeAt opt ip [⟨.nop, 0⟩, ⟨.nop, 0⟩, ⟨.nop, 0⟩, ⟨.nop, 0⟩])
+    (hM : NeverDone M) (hx : x < raw.length) (hx' : x < 65536)
+    (stack : List Value) (env : Env) (out : Str) (polls depth fuel : Nat) :
+    loop M obj raw (fuel + 2) ip stack ⟨env, out, polls, depth⟩ =
+      loop M obj raw fuel (ip + 4) stack ⟨env, out, polls + 2, depth⟩ ∧
+    loop M obj opt (fuel + 4) ip stack ⟨env, out, polls, depth⟩ =
+      loop M obj opt fuel (ip + 4) stack ⟨env, out, polls + 4, depth⟩ :=
+  window_true_jif hraw hopt hM hx hx' stack env out polls depth fuel
 
 /-! ### the square-root fold is not behaviour preserving (known finding KF-12) -/
 
